@@ -115,8 +115,12 @@ class NMEA2000Decoder():
             logger.debug(f"Ignoring frame {frame_counter} for PGN {pgn} as first frame has not been received.")
             return None
         
-        # if this is the first frame of new sequence we will start over
-        if frame_counter == 0 and sequence_counter != fast_pgn.sequence_counter:
+        # A first frame starts a new message: when its sequence counter differs from the one in progress, but also when
+        # it is not a mere repetition of the first frame already stored (senders may reuse a counter, and an earlier
+        # message with that counter may have lost frames: its leftovers must not be mixed into this one)
+        if frame_counter == 0 and (sequence_counter != fast_pgn.sequence_counter
+                                   or fast_pgn.frames.get(0) != can_data[:-2]
+                                   or fast_pgn.payload_length != can_data[-2]):
             
             # Extract the total number of frames from the second-to-last byte
             total_bytes = can_data[-2]
